@@ -28,6 +28,7 @@ class Prop(Check):
         "PosDict.C34_dict_innermost", "PosDict.C34_dict_order", "PosDict.C34_dict_pinned_false",
         "PosDict.C34_wf_geo", "PosDict.C34_geo_spec", "PosDict.C34_dict_innermost_geo", "PosDict.C34_geo_of_build",
         "PosDict.C34_dict_innermost_built", "LinkLoc.C34_refs_total",
+        "PosDict.C34_innermost_unique",
     ]
     DRIVER = "Drivers/Positions.lean"
     QUICK_CASES = 420
